@@ -26,6 +26,8 @@ Fixpoint all_some {A} (l : list (option A)) : option (list A) :=
 
 Definition asQs (v : val) : option (list Q) :=
   match v with VL l => all_some (map asQ l) | _ => None end.
+Definition asQss (v : val) : option (list (list Q)) :=
+  match v with VL l => all_some (map asQs l) | _ => None end.
 Definition asNs (v : val) : option (list nat) :=
   match v with VL l => all_some (map asN l) | _ => None end.
 Definition asBs (v : val) : option (list bool) :=
